@@ -164,7 +164,11 @@ func controller(site string, gid int64, args []int64) {
 
 // quiesce waits until no thread of the case is running or runnable.
 func (f *frun) quiesce() {
+	t0 := time.Now()
 	for spins := 0; ; spins++ {
+		if spins > 1000 && time.Since(t0) > 10*time.Second {
+			return // safety net: never spin forever (the case then shows up as mismatch or hang)
+		}
 		st := gstates()
 		busy := false
 		for _, t := range f.thrs {
@@ -217,6 +221,7 @@ type fresult struct {
 	nontriv   bool
 	noops     int
 	confirmed bool
+	skipped   bool
 }
 
 var hangsSeen atomic.Int64
@@ -584,10 +589,20 @@ func main() {
 		enumerate(3, 2, 2, 200, "w3o2")
 	}
 	fres := make([]fresult, len(jobs))
-	common.Parallel(len(jobs), 8, func(i int) { fres[i] = runForced(jobs[i].nw, jobs[i].nops, jobs[i].sched) })
+	common.Parallel(len(jobs), 8, func(i int) {
+		if hangsSeen.Load() > 40 {
+			fres[i] = fresult{skipped: true} // enough evidence: do not spend the time budget on hangs
+			return
+		}
+		fres[i] = runForced(jobs[i].nw, jobs[i].nops, jobs[i].sched)
+	})
 	seen := map[string]int{}
 	for i, j := range jobs {
 		r := fres[i]
+		if r.skipped {
+			run.Hist("forced_skipped_after_many_hangs")
+			continue
+		}
 		run.Hist("forced_" + j.tag)
 		run.HistN("forced_noop_tokens", r.noops)
 		if len(r.hung) > 0 {
@@ -621,13 +636,25 @@ func main() {
 	for i := range rngs {
 		rngs[i] = rng.Fork("stress" + strconv.Itoa(i))
 	}
+	var stressHangs atomic.Int64
 	common.Parallel(nrounds, 16, func(i int) {
+		if stressHangs.Load() >= 3 {
+			srs[i] = sres{nops: -1}
+			return
+		}
 		r := rngs[i]
 		nops := 1 + r.Intn(8)
 		h, f := stressRound(r, nops, 1+r.Intn(2), 1+r.Intn(4))
+		if h {
+			stressHangs.Add(1)
+		}
 		srs[i] = sres{nops, h, f}
 	})
 	for _, s := range srs {
+		if s.nops < 0 {
+			run.Hist("stress_skipped_after_hangs")
+			continue
+		}
 		run.Add(common.App("KStress", common.Nat(s.nops), common.Bool(s.hung), common.Z(s.final)),
 			map[string]interface{}{"kind": "stress", "ops": s.nops, "hung": s.hung, "final_counter": s.final}, true)
 		run.Hist("stress")
